@@ -1,21 +1,45 @@
 """Property -> rule groups. Each entry runs the rule instances that decide a clause of that
 property on the current tree; the explanation and the undecided clauses go to the evidence."""
-from .rules import form
+from .rules import form, split, shape, flag, valid
 
 ALL5 = ['COSINE', 'DICE', 'EDIT_DISTANCE', 'JACCARD', 'OVERLAP']
 SET4 = ['COSINE', 'DICE', 'JACCARD', 'OVERLAP']
+SET_JOINS = ['cosine', 'dice', 'jaccard', 'overlap', 'overlap_coefficient']
 
 
 def c01(ctx):
     form.run(ctx, SET4, 'safe')
+    split.run(ctx)
+
+
+def c02(ctx):
+    shape.run(ctx, builders=True, cross=False, ids=False)
 
 
 def c03(ctx):
     form.run(ctx, ['EDIT_DISTANCE'], 'safe')
+    flag.run(ctx, joins=['edit_distance'], f4=False)
 
 
 def c04(ctx):
     form.run(ctx, ALL5, 'safe')
+
+
+def c08(ctx):
+    shape.run(ctx, builders=True, cross=True, ids=False)
+
+
+def c10(ctx):
+    split.run(ctx)
+    shape.run(ctx, builders=False, cross=False, ids=True)
+
+
+def c11(ctx):
+    shape.run(ctx)
+
+
+def c12(ctx):
+    flag.run(ctx)
 
 
 def c13(ctx):
@@ -27,38 +51,68 @@ def c14(ctx):
              funcs=['get_size_lower_bound', 'get_size_upper_bound'])
 
 
+def c15(ctx):
+    valid.run(ctx)
+    flag.run(ctx, f4=False)
+
+
 PROPS = {
     'C01': (c01, 'Set-similarity joins prune only with the reference bounds (safe side), over one total token '
                  'order, and every unpruned candidate reaches verification.'),
+    'C02': (c02, 'An emitted row passed the comparison with the emitted score, computed by the named measure on the '
+                 'tokens of the rows whose keys are emitted; rows have the header layout.'),
     'C03': (c03, 'Edit-distance join: reference prefix length, forced bag mode, Levenshtein verification on the '
                  'two strings, inclusive length window.'),
     'C04': (c04, 'Filters apply the reference bounds in the safe direction and drop only under the guards their '
                  'technique defines.'),
+    'C08': (c08, 'Missing values: rows with a missing join value are dropped before indexing, missing pairs are '
+                 'generated once with the header layout (NaN score), filter_pair/matcher test isnull first.'),
+    'C10': (c10, 'Serial and parallel twins do the same per-row work on a contiguous partition of the probe side; '
+                 '_id is numbered once at the end.'),
+    'C11': (c11, 'Every emitted row has exactly the header layout, each cell read from the row and column the '
+                 'header names, in every branch (normal, empty, missing).'),
+    'C12': (c12, 'Tokenizer flag typestate: flipped only around the work and restored on every exit; nothing else '
+                 'writes inputs or shared state.'),
     'C13': (c13, 'Operator partition by non-interference of comp_op with pruning; refinement/transposition only '
                  'through their prerequisites.'),
     'C14': (c14, 'Size bounds are not looser than the reference; candidates arise only from shared tokens.'),
+    'C15': (c15, 'Documented precondition checks are present, unconditional, before any work, on the right '
+                 'argument; no validation failure escapes while the tokenizer mode is switched.'),
 }
 
 UNDECIDED = {
     'C01': ['prefix-filter lemma itself', 'floating-point error below 5e-5 in threshold*size',
             'py_stringmatching tokenizers and measures', 'Cython path (not built, not parsed)'],
+    'C02': ['the value the py_stringmatching measure returns', 'Cython path'],
     'C03': ['count-filter bound over q-gram bags', 'Levenshtein implementation', 'Cython path'],
     'C04': ['prefix-filter lemma', "suffix filter's recursive Hamming estimate (_est_hamming_dist_lower_bound, "
             "_partition, _binary_search) is algorithmic, not structural: undecided", 'Cython path'],
+    'C08': ['pandas isnull/dropna semantics (trusted)'],
+    'C10': ['invariance under row permutation as such', 'joblib scheduling'],
+    'C11': ['pandas DataFrame construction semantics (trusted)'],
+    'C12': ['mutation through objects the analysis cannot type (opaque third-party calls)'],
     'C13': ['transposition and threshold refinement are covered only through C01/C02 prerequisites'],
     'C14': ['that the reference bounds are the tightest possible (arithmetic fact, not structural)'],
+    'C15': ['general crash-freedom of every valid call (termination/exception freedom is not structural)'],
 }
-
 
 _T = ('Static necessary-condition analysis: the named structural clauses are decided for all inputs at once from '
       'the current source; the arithmetic/algorithmic clauses listed under undecided_clauses in the evidence are not.')
 LEVEL_TEXT = {k: PROPS[k][1] + ' ' + _T for k in PROPS}
 TECHNIQUE = {
-    'C01': 'static analysis: rational normal form of pruning formulas ordered against reference bounds (ast)',
-    'C03': 'static analysis: formula normal forms + flag typestate + verification dataflow (ast)',
+    'C01': 'static analysis: rational normal form of pruning formulas ordered against reference bounds; '
+           'serial/parallel twin comparison (ast, reaching definitions)',
+    'C02': 'static analysis: abstract interpretation of row/header layouts per None/empty scenario (ast)',
+    'C03': 'static analysis: formula normal forms + tokenizer-flag typestate over the CFG (ast)',
     'C04': 'static analysis: formula normal forms + decision tables compared as Boolean functions (ast)',
+    'C08': 'static analysis: row-layout abstract interpretation incl. missing-value handler and cross-frame headers',
+    'C10': 'static analysis: twin-call argument comparison, symbolic contiguity of split_table, CFG dominance of _id',
+    'C11': 'static analysis: row-layout abstract interpretation (cells aligned with header cells by side/attribute)',
+    'C12': 'static analysis: typestate abstract interpretation of the tokenizer flag over the CFG + '
+           'interprocedural raise-guard refutation',
     'C13': 'static analysis: non-interference of comp_op with pruning + formula normal forms (ast)',
     'C14': 'static analysis: formula normal forms (tight side) + candidate provenance (ast)',
+    'C15': 'static analysis: obligation table vs resolved validator calls, path conditions, CFG dominance',
 }
 _NYB = 'check not built yet in this phase (planned, see DESIGN.md section 5)'
 NOT_APPLICABLE = {
